@@ -155,7 +155,7 @@ func init() {
 		Assumptions: []string{"interface invokes resolve to the repo's implementations (user-supplied Metastore/KMS/AEAD are opaque)", "log.Debugf and metrics calls make no metastore/KMS calls"},
 		Tech:        "static analysis: closure-binding-sensitive call-graph reachability (who-may-call), guarded-by-condition on SSA",
 		NeedU1:      true,
-		Rules:       []func(*Ctx){ruleC20HitIsPure, ruleC20ExternalOnlyViaCache, ruleC20FactoryWideSKCache, ruleC20ReloadOnce, ruleC20DisabledMeansNever, ruleC05StaleMeansReload, ruleC05ReloadRefreshes, ruleC05FreshnessWriters, ruleC15SetStoresValue, ruleC04LatestMapMonotonic, ruleC04LatestRevalidated, ruleC04LoaderRejectsInvalid, ruleC20StaleOnlyWhenReloadRequired, ruleC01ProvenanceDecrypt, ruleC20CacheSizedByOwnPolicy, ruleC01OldKeysAddressable, ruleC15PolicyCapacityIsTheConfigured, ruleC20IKCachingFollowsTheFlag, ruleC08SharedCacheNotClosedBySession},
+		Rules:       []func(*Ctx){ruleC20HitIsPure, ruleC20ExternalOnlyViaCache, ruleC20FactoryWideSKCache, ruleC20ReloadOnce, ruleC20DisabledMeansNever, ruleC05StaleMeansReload, ruleC05ReloadRefreshes, ruleC05FreshnessWriters, ruleC15SetStoresValue, ruleC04LatestMapMonotonic, ruleC04LatestRevalidated, ruleC04LoaderRejectsInvalid, ruleC20StaleOnlyWhenReloadRequired, ruleC01ProvenanceDecrypt, ruleC20CacheSizedByOwnPolicy, ruleC01OldKeysAddressable, ruleC15PolicyCapacityIsTheConfigured, ruleC20IKCachingFollowsTheFlag, ruleC08SharedCacheNotClosedBySession, ruleC15VictimEnd},
 	})
 }
 
